@@ -409,6 +409,85 @@ func C01(tier string) int {
 			}
 		}
 	}
+	// F3b: a member named like a property that exists in the vocabularies but not on this type
+	// (including the properties explicitly withheld from it) is an unknown member there
+	propNames := []string{}
+	seenName := map[string]bool{}
+	for _, pk := range props {
+		if n := o.Props[pk].Name; !seenName[n] {
+			seenName[n] = true
+			propNames = append(propNames, n)
+		}
+	}
+	for ti, tk := range topTypes {
+		for ni, n := range propNames {
+			has := false
+			for _, pk := range props {
+				if o.Props[pk].Name == n && o.HasProp(tk, pk) {
+					has = true
+				}
+			}
+			if has || n == "id" || n == "type" {
+				continue
+			}
+			vals := []interface{}{"https://x.example/v", M{"k": "v"}, L{"a", M{"type": "Note", "id": "https://x.example/inner"}}}
+			if !res.Thorough() {
+				vals = vals[(ti+ni)%3 : (ti+ni)%3+1]
+			}
+			for _, v := range vals {
+				add("foreign-property-name", withContext(o, M{"type": o.Types[tk].Name, "id": "https://x.example/doc", n: v}, tk), true)
+			}
+			if (ti+ni)%16 == 0 {
+				inner := emb(tk, 1)
+				inner[n] = "https://x.example/v"
+				add("foreign-property-name-nested", withContext(o, M{"type": "Create", "id": "https://x.example/c", "object": inner}, "ActivityStreams/Create"), true)
+			}
+		}
+	}
+	add("canonical|typeless-with-type-member", withContext(o, M{"type": "Person", "id": "https://x.example/p", "inbox": "https://x.example/p/inbox",
+		"publicKey": M{"id": "https://x.example/p#key", "owner": "https://x.example/p", "publicKeyPem": "-----BEGIN-----", "type": "Key"}}, "ActivityStreams/Person"), true)
+	// F3c: a vocabulary used only inside one element of a list (any position, among elements of the
+	// same kind) must still be named by @context
+	var foreign []string
+	for _, tk := range topTypes {
+		if o.Types[tk].Vocab != "ActivityStreams" {
+			foreign = append(foreign, tk)
+		}
+	}
+	listCarriers := []struct{ host, prop string }{{"Create", "object"}, {"Collection", "items"}, {"OrderedCollection", "orderedItems"}, {"Note", "tag"}, {"Note", "attachment"}}
+	for fi, ftk := range foreign {
+		for _, lc := range listCarriers {
+			for _, elemT := range []string{"Note", "Person"} {
+				for n := 2; n <= 3; n++ {
+					for pos := 0; pos < n; pos++ {
+						l := L{}
+						for i := 0; i < n; i++ {
+							e := M{"type": elemT, "id": fmt.Sprintf("https://x.example/el%d", i), "name": fmt.Sprintf("el%d", i)}
+							if i == pos {
+								e["attachment"] = emb(ftk, fi)
+							}
+							l = append(l, e)
+						}
+						add("canonical|foreign-vocabulary-in-one-list-element", withContext(o, M{"type": lc.host, "id": "https://x.example/doc", lc.prop: l}, "ActivityStreams/"+lc.host), true)
+					}
+				}
+			}
+		}
+		// the same through a typeless value (publicKey) in a later Person
+		for pos := 0; pos < 2; pos++ {
+			l := L{}
+			for i := 0; i < 2; i++ {
+				e := M{"type": "Person", "id": fmt.Sprintf("https://x.example/p%d", i)}
+				if i == pos {
+					e["publicKey"] = M{"id": fmt.Sprintf("https://x.example/p%d#key", i), "owner": fmt.Sprintf("https://x.example/p%d", i), "publicKeyPem": "-----BEGIN-----"}
+				}
+				l = append(l, e)
+			}
+			if fi == 0 {
+				add("canonical|foreign-vocabulary-in-one-list-element", withContext(o, M{"type": "OrderedCollection", "id": "https://x.example/doc", "orderedItems": l}, "ActivityStreams/OrderedCollection"), true)
+			}
+		}
+	}
 	// F4: accepted but non-canonical forms (no-loss and idempotence clauses only)
 	nc := func(class string, d M) { add("non-canonical|"+class, withContext(o, d, "ActivityStreams/Note"), false) }
 	note := func(kv ...interface{}) M {
@@ -442,7 +521,7 @@ func C01(tier string) int {
 	nc("empty-string-members", note("content", "", "summary", ""))
 
 	// ---- run ----
-	res.Rule = fmt.Sprintf("documents derived from the ontology grammar: every (type, property, kind in range closure + IRI) x {scalar, list of 2, mixed list <=4, language map} (canonical), nesting depth 2-3 through object/attachment/tag/inReplyTo for every type, unknown members from a 10-value alphabet under 3 key spellings at top level and nested, and %d accepted-but-non-canonical shapes; %d documents in total; oracle: (a) canonical: encode(decode(d)) JSON-equal to d with @context compared as a set that must equal the vocabularies the oracle says the document uses; (b) no member lost except nested @context / null for a known property, natural-language members modulo the Map spelling; (c) a second round trip changes nothing unless the document holds such a null or an array directly inside an array; non-trivial = documents the decoder accepted, distinct by (family, type, member names)", 22, len(cases))
+	res.Rule = fmt.Sprintf("documents derived from the ontology grammar: every (type, property, kind in range closure + IRI) x {scalar, list of 2, mixed list <=4, language map} (canonical), nesting depth 2-3 through object/attachment/tag/inReplyTo for every type, unknown members from a 10-value alphabet under 3 key spellings at top level and nested, every (type, name of a property the type does not have) as a member (top level; every 16th nested), lists of 2-3 same-kind elements of which exactly one (each position) nests a value of another vocabulary, and %d accepted-but-non-canonical shapes; %d documents in total; oracle: (a) canonical: encode(decode(d)) JSON-equal to d with @context compared as a set that must equal the vocabularies the oracle says the document uses; (b) no member lost except nested @context / null for a known property, natural-language members modulo the Map spelling; (c) a second round trip changes nothing unless the document holds such a null or an array directly inside an array; non-trivial = documents the decoder accepted, distinct by (family, type, member names)", 22, len(cases))
 	var mu sync.Mutex
 	chunk := 4000
 	par((len(cases)+chunk-1)/chunk, func(ci int) {
